@@ -612,47 +612,47 @@ harnesses! {
     p02_instr_3_at0 { prop: X02, feat: "c02", tier: thorough, mode: leaf, unwind: 6, caps: "drop=1,eq=1" } => |s| pass::instr_label(s, 3, false, 0);
     p02_instr_2_avr8l { prop: X02, feat: "c02", tier: thorough, mode: leaf, unwind: 6, caps: "drop=1,eq=1" } => |s| pass::instr_label(s, 2, true, 1);
     p02_instr_3_avr8l { prop: X02, feat: "c02", tier: thorough, mode: leaf, unwind: 6, caps: "drop=1,eq=1" } => |s| pass::instr_label(s, 3, true, 1);
-    p03_pc_0_at2 { prop: X03, feat: "c03", tier: thorough, mode: leaf, unwind: 6, caps: "drop=1,eq=1" } => |s| pass::pc_value(s, 0, 2);
-    p03_pc_1_at1 { prop: X03, feat: "c03", tier: thorough, mode: leaf, unwind: 6, caps: "drop=1,eq=1" } => |s| pass::pc_value(s, 1, 1);
+    p03_pc_0_at2 { prop: C03, feat: "c03", tier: quick, mode: leaf, unwind: 6, caps: "drop=1,eq=1" } => |s| pass::pc_value(s, 0, 2);
+    p03_pc_1_at1 { prop: C03, feat: "c03", tier: thorough, mode: leaf, unwind: 6, caps: "drop=1,eq=1" } => |s| pass::pc_value(s, 1, 1);
     p03_pc_2_at0 { prop: X03, feat: "c03", tier: thorough, mode: leaf, unwind: 6, caps: "drop=1,eq=1" } => |s| pass::pc_value(s, 2, 0);
-    p06_db_1_at0 { prop: X06, feat: "c06", tier: thorough, mode: leaf, unwind: 6, caps: "drop=1,eq=1" } => |s| pass::layout_db(s, 1, 0);
-    p06_db_1_at1 { prop: X06, feat: "c06", tier: thorough, mode: leaf, unwind: 6, caps: "drop=1,eq=1" } => |s| pass::layout_db(s, 1, 1);
-    p06_db_2_at0 { prop: X06, feat: "c06", tier: thorough, mode: leaf, unwind: 6, caps: "drop=1,eq=1" } => |s| pass::layout_db(s, 2, 0);
-    p06_db_2_at1 { prop: X06, feat: "c06", tier: thorough, mode: leaf, unwind: 6, caps: "drop=1,eq=1" } => |s| pass::layout_db(s, 2, 1);
+    p06_db_1_at0 { prop: C06, feat: "c06", tier: thorough, mode: leaf, unwind: 6, caps: "drop=1,eq=1" } => |s| pass::layout_db(s, 1, 0);
+    p06_db_1_at1 { prop: C06, feat: "c06", tier: thorough, mode: leaf, unwind: 6, caps: "drop=1,eq=1" } => |s| pass::layout_db(s, 1, 1);
+    p06_db_2_at0 { prop: C06, feat: "c06", tier: thorough, mode: leaf, unwind: 6, caps: "drop=1,eq=1" } => |s| pass::layout_db(s, 2, 0);
+    p06_db_2_at1 { prop: C06, feat: "c06", tier: thorough, mode: leaf, unwind: 6, caps: "drop=1,eq=1" } => |s| pass::layout_db(s, 2, 1);
     p06_db_3_at0 { prop: X06, feat: "c06", tier: thorough, mode: leaf, unwind: 6, caps: "drop=1,eq=1" } => |s| pass::layout_db(s, 3, 0);
     p06_db_3_at1 { prop: X06, feat: "c06", tier: thorough, mode: leaf, unwind: 6, caps: "drop=1,eq=1" } => |s| pass::layout_db(s, 3, 1);
-    p02_eeprom_org { prop: X02, feat: "c02", tier: thorough, mode: leaf, unwind: 6, caps: "drop=1,eq=1" } => |s| pass::eeprom_small(s, 0, 0);
-    p02_eeprom_label { prop: X02, feat: "c02", tier: thorough, mode: leaf, unwind: 6, caps: "drop=1,eq=1" } => |s| pass::eeprom_small(s, 1, 0);
-    p06_reserve_0 { prop: X06, feat: "c06", tier: thorough, mode: leaf, unwind: 6, caps: "drop=1,eq=1" } => |s| pass::eeprom_small(s, 2, 0);
-    p06_reserve_1 { prop: X06, feat: "c06", tier: thorough, mode: leaf, unwind: 6, caps: "drop=1,eq=1" } => |s| pass::eeprom_small(s, 2, 1);
-    p06_reserve_3 { prop: X06, feat: "c06", tier: thorough, mode: leaf, unwind: 6, caps: "drop=1,eq=1" } => |s| pass::eeprom_small(s, 2, 3);
-    p12_ramext_0_2 { prop: X12, feat: "c12", tier: thorough, mode: leaf, unwind: 6, caps: "drop=1,eq=1" } => |s| pass::ram_extent(s, 0, 2);
-    p12_ramext_4_3 { prop: X12, feat: "c12", tier: thorough, mode: leaf, unwind: 6, caps: "drop=1,eq=1" } => |s| pass::ram_extent(s, 4, 3);
-    p12_ramext_1_0 { prop: X12, feat: "c12", tier: thorough, mode: leaf, unwind: 6, caps: "drop=1,eq=1" } => |s| pass::ram_extent(s, 1, 0);
-    p06_reserve_tail { prop: X06, feat: "c06", tier: thorough, mode: leaf, unwind: 6, caps: "drop=1,eq=1" } => |s| pass::eeprom_small(s, 3, 2);
-    p06_reserve_dw { prop: X06, feat: "c06", tier: thorough, mode: leaf, unwind: 6, caps: "drop=1,eq=1" } => |s| pass::eeprom_small(s, 4, 2);
-    p02_overlap_code { prop: X02, feat: "c02", tier: thorough, mode: leaf, unwind: 6, caps: "drop=1,eq=1" } => |s| pass::overlap(s, 0);
-    p02_overlap_eeprom { prop: X02, feat: "c02", tier: thorough, mode: leaf, unwind: 6, caps: "drop=1,eq=1" } => |s| pass::overlap(s, 1);
-    p02_overlap_data { prop: X02, feat: "c02", tier: thorough, mode: leaf, unwind: 6, caps: "drop=1,eq=1" } => |s| pass::overlap(s, 2);
+    p02_eeprom_org { prop: C02, feat: "c02", tier: quick, mode: leaf, unwind: 6, caps: "drop=1,eq=1" } => |s| pass::eeprom_small(s, 0, 0);
+    p02_eeprom_label { prop: C02, feat: "c02", tier: thorough, mode: leaf, unwind: 6, caps: "drop=1,eq=1" } => |s| pass::eeprom_small(s, 1, 0);
+    p06_reserve_0 { prop: C06, feat: "c06", tier: thorough, mode: leaf, unwind: 6, caps: "drop=1,eq=1" } => |s| pass::eeprom_small(s, 2, 0);
+    p06_reserve_1 { prop: C06, feat: "c06", tier: thorough, mode: leaf, unwind: 6, caps: "drop=1,eq=1" } => |s| pass::eeprom_small(s, 2, 1);
+    p06_reserve_3 { prop: C06, feat: "c06", tier: quick, mode: leaf, unwind: 6, caps: "drop=1,eq=1" } => |s| pass::eeprom_small(s, 2, 3);
+    p12_ramext_0_2 { prop: C12, feat: "c12", tier: thorough, mode: leaf, unwind: 6, caps: "drop=1,eq=1" } => |s| pass::ram_extent(s, 0, 2);
+    p12_ramext_4_3 { prop: C12, feat: "c12", tier: quick, mode: leaf, unwind: 6, caps: "drop=1,eq=1" } => |s| pass::ram_extent(s, 4, 3);
+    p12_ramext_1_0 { prop: C12, feat: "c12", tier: thorough, mode: leaf, unwind: 6, caps: "drop=1,eq=1" } => |s| pass::ram_extent(s, 1, 0);
+    p06_reserve_tail { prop: C06, feat: "c06", tier: quick, mode: leaf, unwind: 6, caps: "drop=1,eq=1" } => |s| pass::eeprom_small(s, 3, 2);
+    p06_reserve_dw { prop: C06, feat: "c06", tier: quick, mode: leaf, unwind: 6, caps: "drop=1,eq=1" } => |s| pass::eeprom_small(s, 4, 2);
+    p02_overlap_code { prop: C02, feat: "c02", tier: quick, mode: leaf, unwind: 6, caps: "drop=1,eq=1" } => |s| pass::overlap(s, 0);
+    p02_overlap_eeprom { prop: C02, feat: "c02", tier: quick, mode: leaf, unwind: 6, caps: "drop=1,eq=1" } => |s| pass::overlap(s, 1);
+    p02_overlap_data { prop: C02, feat: "c02", tier: quick, mode: leaf, unwind: 6, caps: "drop=1,eq=1" } => |s| pass::overlap(s, 2);
     p02_offsets { prop: X02, feat: "c02", tier: thorough, mode: leaf, unwind: 6, caps: "drop=1,eq=1" } => |s| pass::offsets_small(s);
-    p06_wrongseg_0 { prop: X06, feat: "c06", tier: thorough, mode: leaf, unwind: 6, caps: "drop=1,eq=1" } => |s| pass::wrong_segment(s, 0);
-    p06_wrongseg_1 { prop: X06, feat: "c06", tier: thorough, mode: leaf, unwind: 6, caps: "drop=1,eq=1" } => |s| pass::wrong_segment(s, 1);
-    p06_wrongseg_2 { prop: X06, feat: "c06", tier: thorough, mode: leaf, unwind: 6, caps: "drop=1,eq=1" } => |s| pass::wrong_segment(s, 2);
-    p06_wrongseg_3 { prop: X06, feat: "c06", tier: thorough, mode: leaf, unwind: 6, caps: "drop=1,eq=1" } => |s| pass::wrong_segment(s, 3);
-    p06_wrongseg_4 { prop: X06, feat: "c06", tier: thorough, mode: leaf, unwind: 6, caps: "drop=1,eq=1" } => |s| pass::wrong_segment(s, 4);
-    p06_wrongseg_5 { prop: X06, feat: "c06", tier: thorough, mode: leaf, unwind: 6, caps: "drop=1,eq=1" } => |s| pass::wrong_segment(s, 5);
-    p06_wrongseg_6 { prop: X06, feat: "c06", tier: thorough, mode: leaf, unwind: 6, caps: "drop=1,eq=1" } => |s| pass::wrong_segment(s, 6);
-    p10_set_use { prop: X10, feat: "c10", tier: thorough, mode: leaf, unwind: 6, caps: "drop=1,eq=1" } => |s| pass::set_use(s);
+    p06_wrongseg_0 { prop: C06, feat: "c06", tier: quick, mode: leaf, unwind: 6, caps: "drop=1,eq=1" } => |s| pass::wrong_segment(s, 0);
+    p06_wrongseg_1 { prop: C06, feat: "c06", tier: quick, mode: leaf, unwind: 6, caps: "drop=1,eq=1" } => |s| pass::wrong_segment(s, 1);
+    p06_wrongseg_2 { prop: C06, feat: "c06", tier: quick, mode: leaf, unwind: 6, caps: "drop=1,eq=1" } => |s| pass::wrong_segment(s, 2);
+    p06_wrongseg_3 { prop: C06, feat: "c06", tier: quick, mode: leaf, unwind: 6, caps: "drop=1,eq=1" } => |s| pass::wrong_segment(s, 3);
+    p06_wrongseg_4 { prop: C06, feat: "c06", tier: quick, mode: leaf, unwind: 6, caps: "drop=1,eq=1" } => |s| pass::wrong_segment(s, 4);
+    p06_wrongseg_5 { prop: C06, feat: "c06", tier: quick, mode: leaf, unwind: 6, caps: "drop=1,eq=1" } => |s| pass::wrong_segment(s, 5);
+    p06_wrongseg_6 { prop: C06, feat: "c06", tier: quick, mode: leaf, unwind: 6, caps: "drop=1,eq=1" } => |s| pass::wrong_segment(s, 6);
+    p10_set_use { prop: C10, feat: "c10", tier: thorough, mode: leaf, unwind: 6, caps: "drop=1,eq=1" } => |s| pass::set_use(s);
     p10_set_twice { prop: X10, feat: "c10", tier: thorough, mode: leaf, unwind: 6, caps: "drop=1,eq=1" } => |s| pass::set_twice(s);
-    p10_set_dseg { prop: X10, feat: "c10", tier: thorough, mode: leaf, unwind: 6, caps: "drop=1,eq=1" } => |s| pass::set_dseg_small(s);
-    p10_set_conflict { prop: X10, feat: "c10", tier: thorough, mode: leaf, unwind: 6, caps: "drop=1,eq=1" } => |s| pass::set_conflict(s);
+    p10_set_dseg { prop: C10, feat: "c10", tier: thorough, mode: leaf, unwind: 6, caps: "drop=1,eq=1" } => |s| pass::set_dseg_small(s);
+    p10_set_conflict { prop: C10, feat: "c10", tier: quick, mode: leaf, unwind: 6, caps: "drop=1,eq=1" } => |s| pass::set_conflict(s);
     p10_def { prop: X10, feat: "c10", tier: thorough, mode: leaf, unwind: 6, caps: "drop=1,eq=1" } => |s| pass::def_small(s, 0);
-    p10_undef { prop: X10, feat: "c10", tier: thorough, mode: leaf, unwind: 6, caps: "drop=1,eq=1" } => |s| pass::def_small(s, 1);
+    p10_undef { prop: C10, feat: "c10", tier: quick, mode: leaf, unwind: 6, caps: "drop=1,eq=1" } => |s| pass::def_small(s, 1);
     p10_undef_use { prop: X10, feat: "c10", tier: thorough, mode: leaf, unwind: 6, caps: "drop=1,eq=1" } => |s| pass::def_small(s, 2);
-    p10_duplabel_0 { prop: X10, feat: "c10", tier: thorough, mode: leaf, unwind: 6, caps: "drop=1,eq=1" } => |s| pass::duplicate_label(s, 0);
-    p10_duplabel_1 { prop: X10, feat: "c10", tier: thorough, mode: leaf, unwind: 6, caps: "drop=1,eq=1" } => |s| pass::duplicate_label(s, 1);
-    p10_duplabel_2 { prop: X10, feat: "c10", tier: thorough, mode: leaf, unwind: 6, caps: "drop=1,eq=1" } => |s| pass::duplicate_label(s, 2);
-    p10_duplabel_3 { prop: X10, feat: "c10", tier: thorough, mode: leaf, unwind: 6, caps: "drop=1,eq=1" } => |s| pass::duplicate_label(s, 3);
+    p10_duplabel_0 { prop: C10, feat: "c10", tier: quick, mode: leaf, unwind: 6, caps: "drop=1,eq=1" } => |s| pass::duplicate_label(s, 0);
+    p10_duplabel_1 { prop: C10, feat: "c10", tier: quick, mode: leaf, unwind: 6, caps: "drop=1,eq=1" } => |s| pass::duplicate_label(s, 1);
+    p10_duplabel_2 { prop: C10, feat: "c10", tier: quick, mode: leaf, unwind: 6, caps: "drop=1,eq=1" } => |s| pass::duplicate_label(s, 2);
+    p10_duplabel_3 { prop: C10, feat: "c10", tier: quick, mode: leaf, unwind: 6, caps: "drop=1,eq=1" } => |s| pass::duplicate_label(s, 3);
     p13_pass2_mul { prop: X13, feat: "c13", tier: thorough, mode: leaf, unwind: 6, caps: "drop=1,eq=1" } => |s| pass::gate_in_pass2(s, 0);
     p13_pass2_ldx { prop: X13, feat: "c13", tier: thorough, mode: leaf, unwind: 6, caps: "drop=1,eq=1" } => |s| pass::gate_in_pass2(s, 1);
     p13_pass2_lpmz { prop: X13, feat: "c13", tier: thorough, mode: leaf, unwind: 6, caps: "drop=1,eq=1" } => |s| pass::gate_in_pass2(s, 2);
